@@ -1082,7 +1082,9 @@ def _choose_write(W, tape, writes):
     ents = [e]
     if via_cli:
         ents = [W.pick(tape, "tcov", label="wr.tcov"), W.pick(tape, "acov", label="wr.acov")]
-    return ents, {"name": name, "prepop": prepop, "cli": via_cli, "times": tape.weighted(
+    fmt = "tab" if via_cli else tape.weighted(
+        [("tab", 5), ("bed", 1), ("bed3", 1), ("bed4", 1), ("interval", 1), ("text", 1), ("seg", 1)], "wr.fmt")
+    return ents, {"name": name, "prepop": prepop, "cli": via_cli, "fmt": fmt, "times": tape.weighted(
         [(1, 3), (2, 2), (3, 2), (5, 1)], "wr.times")}
 
 
@@ -1148,12 +1150,16 @@ def _do_write_step(W, ents, params, writes, ctx, simfs, D):
                 cargs.func(cargs)
             else:
                 core.ensure_path(path)
-                tabio.write(ents[0].obj, path)
+                tabio.write(ents[0].obj, path, params.get("fmt", "tab"))
         except (Exception, SystemExit) as exc:  # noqa: BLE001
             raise Violation("W1", "C10/W1/raises", f"write to {name} "
                             f"{'via cnvkit.py reference -o ' if argv else ''}raised {type(exc).__name__}: {exc}")
         after = simfs.snapshot_dir(root)
         msg = check_w1(before, after, name)
+        if not msg and _k and after.get(name) != before.get(name):
+            # the same object written again: formatting is a pure function of the table
+            msg = (f"write #{_k + 1} of the same object produced other bytes than write #{_k} "
+                   f"({len(after.get(name, b''))} vs {len(before.get(name, b''))} bytes)")
         writes.paths[name] = writes.paths.get(name, 0) + 1
         if writes.paths[name] > 1:
             ctx.probe("write.repeated")
@@ -1173,7 +1179,7 @@ def _do_write_step(W, ents, params, writes, ctx, simfs, D):
         ctx.probe("write.suffix_gt_1")
     if suffixes and suffixes != list(range(1, len(suffixes) + 1)):
         ctx.probe("write.suffix_gap")
-    if argv:
+    if argv or params.get("fmt", "tab") != "tab":
         return
     # the written table reads back as the object's table
     try:
